@@ -1282,6 +1282,16 @@ def gen_c19(rng, tier):
         final = G.Cfg("tl", "rm", "+00:00", nows[-1], tsets[-1])
         cases.append(G.dcase(cid, ds, de, s, final))
         meta[cid] = {"stream": "history", "chain": [(nw, list(ts)) for nw, ts in zip(nows, tsets)], "ds": ds, "de": de}
+    # idempotence only (no history), unwrap-heavy documents
+    for i in range(600 if tier == "quick" else 8000):
+        ds, de = rng.choice(G.DELIMS)
+        cfg = G.Cfg("tl", "rm", "+00:00", G.NOW, ("x",))
+        dg = G.DocGen(rng, ds, de, cfg, safe_text=True)
+        dg.strict_unwrap = True      # a tag on a wrapper line is deleted with the wrapper and strands its partner: outside C19
+        s = dg.document(["ready_tl", "ready_tl", "ready_rm", "pending_tl", "skip", "unreg"], 0.5)
+        cid = f"i{i}"
+        cases.append(G.dcase(cid, ds, de, s, cfg))
+        meta[cid] = {"stream": "idempotence"}
     return merge(corpus_cases(), (cases, meta))
 
 
@@ -1671,7 +1681,7 @@ def oracle_c19(line, m, impl, model):
     if not impl_ok(impl, ["clean"]):
         return "clean panicked"
     c = parse_dcase(line)
-    if m.get("stream") in ("history", "corpus", "ast") and not m.get("mutated"):
+    if m.get("stream") in ("history", "corpus", "ast", "idempotence") and not m.get("mutated"):
         # sources in which delimiter strings occur only as parts of tags
         if "again" in impl and impl["again"] != impl["clean"]:
             out1 = unhex(impl["clean"])
